@@ -31,6 +31,7 @@ type Config struct {
 	SolverLog   string
 	FloatStrict bool
 	Tier        int
+	Cross       *CrossState
 }
 
 type HarnessResult struct {
@@ -72,7 +73,7 @@ func RunPath(prog *ssa.Program, fn *ssa.Function, prefix []string, s *solver.Sol
 		vars: map[string]*VarInfo{}, choices: map[string]int{},
 		stubs: map[string]bool{}, assumptions: map[string]bool{},
 		maxEnum: cfg.MaxEnum, repoPrefix: cfg.RepoPrefix, floatStrict: cfg.FloatStrict,
-		wantWitness: wantWitness, tier: cfg.Tier,
+		wantWitness: wantWitness, tier: cfg.Tier, cross: cfg.Cross,
 	}
 	res = &PathResult{Covers: map[string]bool{}, Asserts: map[string]int{}}
 	x.res = res
